@@ -52,7 +52,7 @@ class Check(PropertyCheck):
         if r.chance(1, 3):
             opts["scale"] = r.choice(["1", "0.5", "2", "1.25", "zz"])
         mode = r.choice(["file", "stdin", "inline", "file", "missing"])
-        out = r.choice([None, None, "file", "unwritable"])
+        out = r.choice([None, None, "file", "unwritable", "devfull"])
         text = gen.random_diagram(r, 16, 5).split("# Legend:")[0]
         if mode == "inline":
             text = text.replace("\n", " ").replace("\\", "/").strip() or "a"
@@ -126,6 +126,9 @@ class Check(PropertyCheck):
         elif out == "unwritable":
             outp = os.path.join(tmp, "no_such_dir_%d" % idx, "out.svg")
             argv += ["-o", outp]
+        elif out == "devfull":
+            # opens fine, every write fails (a full disk)
+            argv += ["-o", "/dev/full"]
         pr = subprocess.run(argv, input=stdin_data if stdin_data is not None else b"", capture_output=True, timeout=60)
         return argv, pr, outp, effective
 
@@ -160,7 +163,7 @@ class Check(PropertyCheck):
             opts, mode, out, text = c
             case = {"argv": argv[1:], "mode": mode, "input": text, "input_hex": hx(text)}
             legal = self.settings_of(opts) is not None
-            should_succeed = legal and mode != "missing" and out != "unwritable" and libans is not None and libans.startswith("ok ")
+            should_succeed = legal and mode != "missing" and out not in ("unwritable", "devfull") and libans is not None and libans.startswith("ok ")
             if should_succeed and opts:
                 self.nontrivial.add((tuple(argv[1:]), text))
             if i < 3:
@@ -198,6 +201,7 @@ class Check(PropertyCheck):
             else:
                 inp = "stdin:ok:" + hx(text)
             outf = "-" if out is None else ("ok:" + hx("o") if out == "file" else "err:%s:%s" % (hx("o"), hx("denied")))
+            # (`-o /dev/full` is a write that fails: for the model the same as an output that cannot be written)
             conv = libans[3:] if (libans and libans.startswith("ok ")) else "panic"
             if libans is None:
                 conv = hx("x")
